@@ -665,7 +665,7 @@ func (fx *FnExec) enterLoop(b *ssa.BasicBlock, li *loopInfo, st *blockState) {
 	}
 	// decreases: remember the measure at the head
 	if d := fx.loopDecreases(li); d != nil {
-		t, err := fx.evalContract(d, &evalEnv{fx: fx, heap: st.heap, oldHeap: fx.heap0, loop: b})
+		t, err := fx.evalMeasure(d, &evalEnv{fx: fx, heap: st.heap, oldHeap: fx.heap0, loop: b})
 		if err == nil {
 			li.measure = fx.define(fmt.Sprintf("measure_l%d", li.ordinal), "Int", t)
 			li.hasDec = true
@@ -793,7 +793,10 @@ func (fx *FnExec) closeBackEdge(p, head *ssa.BasicBlock, cond string) {
 		o.Props = st.Props
 	}
 	if dec != nil && li.hasDec {
-		t, err := fx.evalContract(dec, &evalEnv{fx: fx, heap: fx.cur.heap, oldHeap: fx.heap0, loop: head})
+		t, err := fx.evalMeasure(dec, &evalEnv{fx: fx, heap: fx.cur.heap, oldHeap: fx.heap0, loop: head})
+		if err != nil {
+			fx.outside = append(fx.outside, fmt.Sprintf("loop %d decreases at the back edge: %v", li.ordinal, err))
+		}
 		if err == nil {
 			o := fx.oblige("dec", "(and (< "+t+" "+li.measure+") (>= "+li.measure+" 0))", lastInstr(p), fmt.Sprintf("loop %d measure decreases and is bounded: %s", li.ordinal, dec.Text))
 			o.Props = dec.Props
